@@ -69,11 +69,14 @@ def check_eval(case, stats=None):
     idx = case.get('idx', 0)
     rst = list(stack0)
     rs = I.Stats() if stats is None else stats
+    lax0 = I.OUT_OF_SCOPE[0]
     try:
         I.eval_script(rst, script, set(flags), m, idx, I.ecdsa_checksig, rs)
         ref = 'ok'
     except I.ScriptFail as e:
         ref = str(e)
+    if I.OUT_OF_SCOPE[0] != lax0:
+        return {'nt': False, 'cls': ['out-of-scope:non-strict-der-signature']}
     lst = list(stack0)
     try:
         EvalScript(lst, CScript(script), tx, idx, flags=libx.flagset(flags))
@@ -109,7 +112,11 @@ def check_verify(case):
     m, tx = _tx(case)
     idx = case.get('idx', 0)
     rs = I.Stats()
+    lax0 = I.OUT_OF_SCOPE[0]
     ok, why = I.verify_script(ssig, spk, set(flags), m, idx, I.ecdsa_checksig, rs)
+    if I.OUT_OF_SCOPE[0] != lax0:
+        # a DER-like but not strictly DER signature reached a signature check: the statement excludes these (OpenSSL leniency)
+        return {'nt': False, 'cls': ['out-of-scope:non-strict-der-signature']}
     try:
         VerifyScript(CScript(ssig), CScript(spk), tx, idx, flags=libx.flagset(flags))
         lib = True
